@@ -11,10 +11,12 @@
 3. spec/IntMathJudge.tla (TLC, RecordLoop) judges every recorded result.
 UB (sanitizer), traps and hangs inside a driven call are observed, not decided by the spec; they
 are reported as rejected calls."""
+import array
 import json
 import os
 import random
 import re
+import threading
 import concurrent.futures
 
 import vlib
@@ -25,7 +27,7 @@ HARNESS = "c06_intmath"
 PID = "C06"
 
 BUG_GUARDS = ["FromIntNarrowBug", "Log2ShiftBug", "CeilDivSignedBug", "DiffPromoBug", "TCToSignedBug",
-              "MutTCLessEq", "MutCeilDivAdd", "MutClampLess"]
+              "MutTCLessEq", "MutCeilDivAdd", "MutClampLess", "IntervalTouchBug", "MutConvZeroExtend"]
 # UBSan aborts via SIGABRT so that the harness' handler can append the {"e":"abort"} line naming the call
 UBSAN = "print_stacktrace=1:halt_on_error=1:exitcode=66:abort_on_error=1"
 PAR = max(2, min(8, vlib.NCPU // 2))      # the box is shared with other checks
@@ -99,18 +101,104 @@ def abort_kind(rc, out):
     return {66: "sanitizer", 67: "crash", 68: "hang", 124: "timeout"}.get(rc, "exit%d" % rc)
 
 
+IN_SCOPE_FNS = {"truncation_check", "from_int", "ceil_div", "ceil_div_signed", "div", "mod", "clamp", "diff", "is_power_of_2",
+                "next_power_of_2", "log2", "power_of_2", "shifted_mask", "mask_c", "bit_test"}       # = IntMathJudge.C06InScopeFns
+
+
+class Recs:
+    """The complete records of all section files, addressed by index without keeping the text in memory
+    (thorough tiers record several hundred MB).  Iterating yields (section, line)."""
+
+    def __init__(self):
+        self.paths = []
+        self.sections = []
+        self.file = array.array("l")
+        self.off = array.array("q")
+        self.len = array.array("l")
+        self._fh = {}
+        self._lock = threading.Lock()
+
+    def add_file(self, section, path):
+        """Index the complete record lines of one section file.  Returns (abort record or None, truncated tail)."""
+        fi = len(self.paths)
+        self.paths.append(path)
+        self.sections.append(section)
+        abort, tail = None, None
+        off = 0
+        with open(path, "rb") as f:
+            for raw in f:
+                n = len(raw)
+                line = raw.rstrip(b"\r\n")
+                if raw.endswith(b"\n") and line.startswith(b"{") and line.endswith(b"}"):
+                    if line.startswith(b'{"e":'):
+                        try:
+                            abort = json.loads(line)
+                        except ValueError:
+                            pass
+                    else:
+                        self.file.append(fi)
+                        self.off.append(off)
+                        self.len.append(len(line))
+                elif line.strip():
+                    tail = line.decode(errors="replace")      # a call that never finished
+                off += n
+        return abort, tail
+
+    def __len__(self):
+        return len(self.off)
+
+    def size(self, i):
+        return self.len[i]
+
+    def section(self, i):
+        return self.sections[self.file[i]]
+
+    def line(self, i):
+        with self._lock:
+            fi = self.file[i]
+            fh = self._fh.get(fi)
+            if fh is None:
+                fh = self._fh[fi] = open(self.paths[fi], "rb")
+            fh.seek(self.off[i])
+            return fh.read(self.len[i]).decode()
+
+    def __iter__(self):
+        for fi, path in enumerate(self.paths):
+            with open(path, "rb") as f:
+                for raw in f:
+                    line = raw.rstrip(b"\r\n")
+                    if raw.endswith(b"\n") and line.startswith(b"{") and line.endswith(b"}") and not line.startswith(b'{"e":'):
+                        yield self.sections[fi], line.decode()
+
+
+class MemRecs:
+    """the same interface for a small list of (section, line)"""
+
+    def __init__(self, items):
+        self.items = items
+
+    def __len__(self):
+        return len(self.items)
+
+    def size(self, i):
+        return len(self.items[i][1])
+
+    def section(self, i):
+        return self.items[i][0]
+
+    def line(self, i):
+        return self.items[i][1]
+
+    def __iter__(self):
+        return iter(self.items)
+
+
 def collect(ctx, runs, pid):
-    """Turn aborted sections into rejected calls; return [(section, line)] of complete records."""
-    recs = []
+    """Turn aborted sections into rejected calls (observations if the function is outside the statement);
+    returns the index of the complete records (Recs)."""
+    recs = Recs()
     for s, path, rc, out in runs:
-        lines, tail = vlib.check_trace_file(path)
-        good = []
-        abort = None
-        for l in lines:
-            if l.startswith('{"e":'):
-                abort = json.loads(l)
-            else:
-                good.append(l)
+        abort, tail = recs.add_file(s, path)
         if rc != 0:
             kind = abort_kind(rc, out)
             f = (abort or {}).get("f") or "?"
@@ -118,18 +206,19 @@ def collect(ctx, runs, pid):
                 m = re.search(r'"f":"(\w+)"', tail)
                 f = m.group(1) if m else "?"
             msg = re.search(r"(runtime error: [^\n]*|ERROR: \w+Sanitizer: [^\n]*)", out)
-            ctx.reject("%s:%s:%s" % (pid, f, kind),
-                       "%s inside a driven call of %s (section %s): %s; call: %s" % (
-                           kind, f, s, msg.group(1) if msg else out[-300:].replace("\n", " | "), json.dumps(abort) if abort else (tail or "")[:300]),
-                       {"sections": [s], "abort": abort, "partial_line": (tail or "")[:500]})
-        recs += [(s, l) for l in good]
+            what = "%s inside a driven call of %s (section %s): %s; call: %s" % (
+                kind, f, s, msg.group(1) if msg else out[-300:].replace("\n", " | "), json.dumps(abort) if abort else (tail or "")[:300])
+            if pid == "C06" and f != "?" and f not in IN_SCOPE_FNS:
+                observe(ctx, "%s:%s:%s" % (pid, f, kind), what)      # UB in a function the statement of C06 does not name
+            else:
+                ctx.reject("%s:%s:%s" % (pid, f, kind), what, {"sections": [s], "abort": abort, "partial_line": (tail or "")[:500]})
     return recs
 
 
 # ------------------------------------------------------------------ judging
 def judge(ctx, recs, module_cfg, tag, chunk_bytes=2500000):
-    """Judge records (list of (section, json line)) with TLC; records are independent, so they are
-    shuffled (seeded) to balance the chunks.  Returns list of (bad entry, section, line)."""
+    """Judge records (Recs / MemRecs) with TLC; records are independent, so they are shuffled (seeded) to
+    balance the chunks.  Returns list of (bad entry, section, line)."""
     rnd = random.Random(ctx.seed)
     idx = list(range(len(recs)))
     rnd.shuffle(idx)
@@ -137,18 +226,19 @@ def judge(ctx, recs, module_cfg, tag, chunk_bytes=2500000):
     cur, size = [], 0
     for i in idx:
         cur.append(i)
-        size += len(recs[i][1]) + 1
+        size += recs.size(i) + 1
         if size >= chunk_bytes:
-            chunks.append(cur)
+            chunks.append(array.array("l", cur))
             cur, size = [], 0
     if cur:
-        chunks.append(cur)
+        chunks.append(array.array("l", cur))
+    del idx
 
     def one(k):
         p = os.path.join(ctx.workdir, "%s_chunk%d.ndjson" % (tag, k))
         with open(p, "w") as f:
             for i in chunks[k]:
-                f.write(recs[i][1])
+                f.write(recs.line(i))
                 f.write("\n")
         r = tlc_retry(module_cfg[0], module_cfg[1], workers=1, env={"TRACE": p}, timeout=2400, xmx="3g", tag=module_cfg[0] + "_j")
         v = vlib._verdict_lines(r.out)
@@ -166,7 +256,7 @@ def judge(ctx, recs, module_cfg, tag, chunk_bytes=2500000):
         nbad += nb
         ctx.extra["trace_states"] = ctx.extra.get("trace_states", 0) + gen
         for b, i in bad:
-            out.append((b, recs[i][0], recs[i][1]))
+            out.append((b, recs.section(i), recs.line(i)))
     ctx.extra["judge_chunks"] = ctx.extra.get("judge_chunks", 0) + len(chunks)
     ctx.extra["rejected_records"] = ctx.extra.get("rejected_records", 0) + nbad
     return out
@@ -178,9 +268,15 @@ def selftest(ctx, recs, module_cfg, tag, corrupt, want):
     bad_in = []
     seen = {}
     for s, l in recs:
+        if len(l) > 20000:
+            continue
+        m = re.match(r'\{(?:"w":\d+,)?"f":"(\w+)"', l)
+        if m and seen.get(("pre", m.group(1)), 0) >= 40:       # cheap pre-filter before parsing
+            continue
         r = json.loads(l)
+        seen[("pre", r["f"])] = seen.get(("pre", r["f"]), 0) + 1
         key = (r["f"], r.get("w"), r.get("S"), r.get("k"), r.get("g"))
-        if seen.get(key, 0) >= 2 or len(l) > 20000:
+        if seen.get(key, 0) >= 2:
             continue
         c = corrupt(r)
         if c is not None:
@@ -189,7 +285,7 @@ def selftest(ctx, recs, module_cfg, tag, corrupt, want):
     if len(bad_in) < want:
         raise vlib.Infra("judge self-test: only %d records could be corrupted" % len(bad_in))
     saved = dict(ctx.extra)
-    rej = judge(ctx, bad_in, module_cfg, tag, chunk_bytes=10 ** 9)
+    judge(ctx, MemRecs(bad_in), module_cfg, tag, chunk_bytes=10 ** 9)
     n = ctx.extra.get("rejected_records", 0) - saved.get("rejected_records", 0)
     for k in ("judge_chunks", "rejected_records", "trace_states"):
         if k in saved:
@@ -213,7 +309,9 @@ def corrupt_c06(r):
         # only where the specification demands a result
         if r["f"] in ("log2",) and x == 0:
             return None
-        if r["f"] in ("diff", "next_power_of_2", "power_of_2", "shifted_mask", "ceil_div_signed", "div", "interval_distance"):
+        if r["f"] in ("diff", "next_power_of_2", "power_of_2", "shifted_mask", "ceil_div_signed", "div", "interval_distance",
+                      "cast_size", "to_signed", "to_unsigned", "promote_int", "safe_numeric", "enum_to_int", "enum_to_underlying",
+                      "int_to_enum", "literal", "mask_c", "to_uint_ptr"):
             r["rs"] = [1000001 if j == i else w for j, w in enumerate(r["rs"])]      # an exception is never explained
             return r
         r["rs"] = [((0 if v == 1000000 else (1 - v if r["f"] in ("is_power_of_2", "bit_test") else v + 1)) if j == i else w)
@@ -232,16 +330,36 @@ def describe(rec, at):
     return json.dumps({k: rec[k] for k in rec if k not in ("w",)})[:600]
 
 
+def observe(ctx, signature, what):
+    """A disagreement outside the statement of the property (judge flag in_scope = FALSE): recorded in the
+    evidence (coverage.observations) and printed, never a rejected event."""
+    obs = ctx.extra.setdefault("observations", [])
+    for o in obs:
+        if o["signature"] == signature:
+            o["count"] += 1
+            return
+    obs.append({"signature": signature, "what": what[:900], "count": 1})
+    print("OBSERVATION property=%s (outside the statement, not a violation) %s: %s" % (ctx.pid, signature, what[:400]))
+
+
 def report(ctx, bads, pid):
+    """Returns the number of in-scope rejections (violations or known findings)."""
+    n = 0
     for b, section, line in bads:
         rec = json.loads(line)
         for why in sorted(b["why"]):
             if why.startswith("HARNESS"):
                 raise vlib.Infra("harness emitted a malformed record: %s" % line[:300])
             sig = "%s:%s:%s" % (pid, b["op"], why)
-            ctx.reject(sig, "spec cannot explain %s (%s): %s" % (b["op"], why, describe(rec, b.get("at"))),
+            what = "spec cannot explain %s (%s): %s" % (b["op"], why, describe(rec, b.get("at")))
+            if why not in b.get("inscope", []):
+                observe(ctx, sig, what)
+                continue
+            n += 1
+            ctx.reject(sig, what,
                        {"sections": [section], "record": rec if len(line) < 4000 else {k: rec[k] for k in rec if k not in ("rs", "xs")},
                         "at": b.get("at")})
+    return n
 
 
 def count(ctx, recs):
@@ -261,14 +379,20 @@ def count(ctx, recs):
 
 
 def sample(ctx, recs):
+    """a few short records of different functions, from evenly spaced positions"""
     seen = set()
-    for s, l in recs:
-        r = json.loads(l)
+    n = len(recs)
+    for i in range(0, n, max(1, n // 4000)):
+        if recs.size(i) > 700:
+            continue
+        r = json.loads(recs.line(i))
         key = (r["f"], r["w"])
-        if key in seen or len(l) > 700:
+        if key in seen:
             continue
         seen.add(key)
         ctx.sample(r, cap=8)
+        if len(seen) >= 8:
+            break
 
 
 def sections_of(binary):
@@ -286,13 +410,12 @@ def run(ctx):
         binary = fb.result()
     runs = record(ctx, binary, sections_of(binary), "rec")
     recs = collect(ctx, runs, PID)
-    if not recs:
+    if len(recs) == 0:
         raise vlib.Infra("the harness recorded nothing")
     ctx.evaluations += count(ctx, recs)
     sample(ctx, recs)
     bads = judge(ctx, recs, JUDGE, "c06")
-    report(ctx, bads, PID)
-    if not bads:
+    if report(ctx, bads, PID) == 0:
         # vacuity guard of the judge; it presupposes that the recorded results are right, so it only runs
         # when the judge accepted all of them (otherwise the run ends in a VIOLATION anyway)
         selftest(ctx, recs, JUDGE, "c06self", corrupt_c06, 40)
@@ -324,7 +447,7 @@ def replay(ctx, payload):
     ctx.seed = payload.get("seed", ctx.seed)
     runs = record(ctx, binary, secs, "replay")
     recs = collect(ctx, runs, PID)
-    if recs:
+    if len(recs):
         ctx.evaluations += count(ctx, recs)
         report(ctx, judge(ctx, recs, JUDGE, "c06r"), PID)
     ctx.traces_validated += ctx.extra.get("judge_chunks", 0)
